@@ -114,6 +114,36 @@ class Base(probe.Contract):
         if st is not None:
             self.immut(st)
             self.plain_unchanged(st, raised=True)
+            self.refused(st, e, args, kwargs)
+
+    def refused(self, st, e, args, kwargs):
+        """an in-place call that RAISES (a refusal of an inadmissible option value, a dimension mismatch) has not performed the
+        documented operation: the object it was to work on must still be the tensor train it was (value, metadata, core list) -
+        a caller who catches the refusal and goes on (repeats the call with a corrected argument) works with that object"""
+        tgt = st.get('target')
+        if tgt is None:
+            return
+        for s in st['snaps']:
+            if s is None or s.obj is not tgt:
+                continue
+            # (the REPRESENTED tensor and its dimensions: a refused two-sided sweep may legitimately have completed its value-preserving
+            # left half - other ranks, another gauge - before the right half refused the option)
+            d = None
+            ok_, why_ = tt_consistent(tgt)
+            if not ok_ or len(tgt.cores) != tgt.order:
+                d = 'object inconsistent after the refusal: %s (cores: %d, order: %d)' % (why_, len(tgt.cores), tgt.order)
+            elif tgt.order != s.order or list(tgt.row_dims) != s.row_dims or list(tgt.col_dims) != s.col_dims or tgt.ranks[0] != s.ranks[0] or tgt.ranks[-1] != s.ranks[-1]:
+                d = 'dimensions %s x %s -> %s x %s' % (s.row_dims, s.col_dims, list(tgt.row_dims), list(tgt.col_dims))
+            elif all(np.all(np.isfinite(c_)) for c_ in s.cores):
+                a_, b_ = dense_b_cores(s.cores), dense_b_cores(tgt.cores)
+                if a_.shape != b_.shape or not close(a_, b_, 1e-9, scale=s.floor()):
+                    d = 'dense value changed (rel. %.3g), ranks %s -> %s' % (relerr(a_, b_, s.floor()) if a_.shape == b_.shape else np.inf, s.ranks, list(tgt.ranks))
+            props = [self.prop]
+            if self.api.startswith('TT.ortho') and (kwargs.get('max_rank', np.inf) is not np.inf or len(args) > 4):
+                props.append('C04')  # (a truncating sweep that was refused half way has truncated)
+            for p_ in props:
+                core.ctx().check(self.api, 'operand_unchanged_by_refused_call', d is None, shape_tags_snap(s) if d is not None else (),
+                                 {'diff': d, 'exception': repr(e)[:200], 'shape': s.shape_sig()} if d else None, prop=p_)
 
     def post(self, st, res, args, kwargs):
         if st is None:
@@ -716,12 +746,13 @@ class Diag(Base):
     def value(self, st, res, args, kwargs):
         s = st['snaps'][0]
         lst = args[1] if len(args) > 1 else kwargs.get('diag_list')
-        lst = [int(i) for i in lst]
+        d = s.order
+        neg = any(int(i) < 0 for i in lst)
+        lst = [int(i) % d for i in lst]  # (negative entries count from the back)
         if not _std(s) or not _is_tt(res) or not tt_consistent(res)[0]:
             return
         if any(s.col_dims[i] != 1 for i in lst):
             return
-        d = s.order
         D = s.dense()
         shape = list(D.shape)
         for i in lst:
